@@ -457,6 +457,10 @@ def check_wrapper(data, rnd):
     if len(data) <= 3000:
         sizes.append(1)
     sizes.append(rnd.randint(1, max(2, len(data))) if len(data) > 1 else 1)
+    if len(data) > (1 << 20):
+        # reads larger than any buffer the wrapper may have: the whole of what was read reaches the inspectors
+        sizes += [(1 << 20) + (1 << 19) + 1, 1 << 23]
+        sizes.remove(512)
     seen = {}
     errored_any = set()
     for k, sz in enumerate(sizes):
@@ -494,6 +498,10 @@ def _wrap_job(args):
             # long streams: every inspector reaches its decision well before the end
             from vf import images as _im
             data = data + _im.rnd_bytes(rnd, rnd.choice([300000, 500000, 700000]) - len(data) % 1000)
+            label = dict(label, extended_to=len(data))
+        elif i % 20 == 11 and len(data) < 280000:
+            from vf import images as _im
+            data = data + _im.rnd_bytes(rnd, 2600000 + rnd.randint(0, 99999) - len(data) % 1000)
             label = dict(label, extended_to=len(data))
         seen, errored = check_wrapper(data, rnd)
         out.append((i, label, len(data), [(list(k) if isinstance(k, tuple) else k, v) for k, v in seen.items()],
